@@ -240,6 +240,35 @@ def sweep(fx, R):
                                    'OLD %s (or from nothing, for a default-constructed object that is configured afterwards)' % (D, S_, pp(i['e'])[:80], setters[0], S_, D, S_), fx.rel(g['loc']), 'E-STATE')
                     elif used:
                         R.holds('H8', inst, 'derived from %s, which no method re-assigns without it' % S_, fx.rel(g['loc']), 'E-STATE')
+    # ---- H12: a reference member bound to ANOTHER MEMBER of the same object, in a class whose copy constructor is the implicit one: the copy's reference still points into the original -----------
+    for cls in classes:
+        rec = fx.records.get(cls) or {}
+        ref_fields = {fl_['name'] for fl_ in rec.get('fields', []) if (fl_.get('t') or {}).get('ref') or (fl_.get('t') or {}).get('s', '').rstrip().endswith('&')}
+        if not ref_fields:
+            continue
+        copy = [m_ for m_ in rec.get('methods', []) if m_.get('copyctor')]
+        user_copy = any(not m_.get('implicit') and not m_.get('deleted') for m_ in copy)
+        deleted = bool(copy) and all(m_.get('deleted') for m_ in copy)
+        for g in [g for g in fx.functions.values() if g.get('ctor') and g.get('cls') == cls and not g.get('copyctor')]:
+            for i in g.get('inits', []):
+                if i.get('field') not in ref_fields or i.get('e') is None:
+                    continue
+                own = [y for y in walk(i['e']) if isinstance(y, dict) and y.get('k') == 'Member' and y.get('field') and y.get('cls') == cls]
+                inst = '%s:self-bound-reference:%s' % (cls, i['field'])
+                if not own:
+                    continue
+                used = any(isinstance(y, dict) and y.get('k') == 'Member' and y.get('name') == i['field'] and y.get('cls') == cls for f_ in fns if f_.get('cls') == cls and not f_.get('ctor') for y in walk(f_.get('body')))
+                if not used:
+                    continue
+                if deleted:
+                    R.holds('H12', inst, 'bound to %s of the same object; the class cannot be copied' % own[0]['name'], fx.rel(g['loc']), 'E-STATE')
+                elif user_copy:
+                    R.undecided('H12', inst, 'reference member bound to %s of the same object; the user-provided copy constructor is not followed' % own[0]['name'])
+                else:
+                    R.violated('H12', inst, '`%s` is a reference member bound in the constructor to `%s`, a member of the SAME object, and the copy constructor is the compiler-generated one: it copies the reference, so in a '
+                               'copy (a worker built from a prototype, an element of a vector of estimators, a by-value capture) `%s` still refers to the ORIGINAL object\'s %s - the copy computes with its own %s and '
+                               'reads the results of the original: what it returns is not a function of its own inputs' % (i['field'], pp(i['e'])[:70], i['field'], own[0]['name'], own[0]['name']),
+                               fx.rel(g['loc']), 'E-STATE')
     # ---- H11: a member function this property reads that redefines, with the same signature, a NON-virtual member of a public base: through a base reference the base version runs --------
     for cls in classes:
         rec = fx.records.get(cls) or {}
